@@ -139,11 +139,17 @@ theorem unsolicited_gated (last : Option UnsolKey) (r : Resp) (h : r.raw ≠ [])
   | nil => exact absurd hr h
   | cons x xs => simp [List.isEmpty]
 
-theorem unsolicited_null_confirmed (last : Option UnsolKey) (r : Resp) (h : r.raw = []) :
+/-- a null unsolicited response (no objects; the object parse of a received fragment without
+    objects always succeeds, `parseResponse_null_objects`) passes the gate -/
+theorem unsolicited_null_confirmed (last : Option UnsolKey) (frag : List Nat) (r : Resp)
+    (hp : parseResponse frag = some r) (h : r.raw = []) :
     (handleUnsolicited false last r).valid = true ∧ (handleUnsolicited false last r).confirm = r.ctrl.con := by
+  have ho := Proofs.Master.parseResponse_null_objects frag r hp h
   unfold handleUnsolicited
-  simp only [h, List.isEmpty, Bool.false_or, if_true]
+  simp only [h, ho, List.isEmpty, Bool.false_or, if_true, Option.isNone_some, Bool.false_eq_true, if_false]
   split <;> simp
+
+example : (parseResponse [0xF0, 0x82, 0x80, 0x00]).map (fun r => (r.unsol, r.raw, r.ctrl.con)) = some (true, [], true) := by decide
 
 /-- the integrity poll counts as completed only when one is configured and has succeeded since
     the last (re)connect / restart indication -/
